@@ -179,6 +179,16 @@ def build_cases(ctx, histories, grid, d):
             calls.append({"obj": [kind, "pool"], "input": rnd.choice(ins), "depth": 0 if kind == "fast" else rnd.choice([0, 1, 3, 512]),
                           "dstLen": -1, "spare": 0})
         add(calls, par=4)
+    # ... and with sources beyond 64 KiB (a call then runs long enough to be preempted in the middle of a block; two calls
+    # sharing one pooled compressor would see each other's table entries)
+    for _ in range(4 if q else 40):
+        ins = [{"family": rnd.choice(["text", "mixed", "lowentropy"]), "len": rnd.choice([70000, 140000, 200000, 300000]), "seed": rnd.randrange(1 << 30), "p1": 7}
+               for _ in range(3)]
+        calls = []
+        for _ in range(64):
+            kind = rnd.choice(["fast", "fast", "fast", "hc"])
+            calls.append({"obj": [kind, "pool"], "input": rnd.choice(ins), "depth": 0 if kind == "fast" else 1, "dstLen": -1, "spare": 0})
+        add(calls, par=8)
     return cases
 
 
